@@ -94,3 +94,56 @@ Definition check_tracker (L : loop Z) (tracker_origin : Z) (first_leaf : Z) (cel
                        (new_tracker Z id_zero tracker_origin tracker_origin first_leaf)
                        [loop_shape Z id_zero L] in
   list_eqb (opt_eqb (list_eqb Nat.eqb)) (snd (tracker_run Z e t0 cells)) expected.
+
+(** Polygon.Invert: the loops of the result are, as a multiset of (vertices, originInside), the
+    loops of the polygon with exactly one of them replaced by its [invert] — the premise of
+    [polygon_invert_complement]. *)
+Definition lv_eqb (x y : list Z * bool) : bool :=
+  list_eqb Z.eqb (fst x) (fst y) && Bool.eqb (snd x) (snd y).
+Fixpoint remove_first (x : list Z * bool) (l : list (list Z * bool)) : option (list (list Z * bool)) :=
+  match l with
+  | [] => None
+  | y :: t => if lv_eqb x y then Some t
+              else match remove_first x t with Some t' => Some (y :: t') | None => None end
+  end.
+Fixpoint perm_eqb (l m : list (list Z * bool)) : bool :=
+  match l with
+  | [] => match m with [] => true | _ => false end
+  | x :: t => match remove_first x m with Some m' => perm_eqb t m' | None => false end
+  end.
+Definition invert_lv (x : list Z * bool) : list Z * bool :=
+  let L := invert Z id_empty id_full (mk_loop Z (fst x) (snd x)) in (verts Z L, origin_inside Z L).
+(* some loop of P, inverted, together with the other loops of P, is Q *)
+Fixpoint one_inverted (before after : list (list Z * bool)) (Q : list (list Z * bool)) : bool :=
+  match after with
+  | [] => false
+  | x :: t => perm_eqb (invert_lv x :: before ++ t) Q || one_inverted (before ++ [x]) t Q
+  end.
+Definition check_polygon_invert (P Q : list (list Z * bool)) : bool := one_inverted [] P Q.
+
+(** Polygon.Invert, full layout: loops carry their depth.  [best] is the index of the loop the
+    implementation chose to invert (the top-level shell of largest area: a float decision, taken
+    from the observation); the model then fixes order, depths, vertices and originInside of the
+    result: the inverted loop first, then every loop that is not one of its descendants with
+    depth+1 (the former siblings — before AND after it — and their descendants), then its
+    descendants with depth-1. *)
+Definition lvd := (list Z * bool * Z)%type.
+Definition lvd_eqb (x y : lvd) : bool := lv_eqb (fst x) (fst y) && (snd x =? snd y).
+Fixpoint take_while {A} (f : A -> bool) (l : list A) : list A :=
+  match l with [] => [] | x :: t => if f x then x :: take_while f t else [] end.
+Definition inv_layout (P : list lvd) (best : nat) : list lvd :=
+  match nth_error P best with
+  | None => []
+  | Some b =>
+    let d := snd b in
+    let desc := take_while (fun x : lvd => d <? snd x) (skipn (S best) P) in
+    let after := skipn (S best + length desc) P in
+    (invert_lv (fst b), d)
+      :: map (fun x : lvd => (fst x, snd x + 1)) (firstn best P ++ after)
+      ++ map (fun x : lvd => (fst x, snd x - 1)) desc
+  end.
+Definition check_polygon_invert_layout (P : list lvd) (best : nat) (Q : list lvd) : bool :=
+  match nth_error P best with
+  | Some b => (snd b =? 0) && list_eqb lvd_eqb (inv_layout P best) Q
+  | None => false
+  end.
